@@ -855,6 +855,12 @@ class ApplicationStartJobs(ApplicationJobs):
                 self.logger.warn(f'ApplicationStartJobs.process_job: no resource available for {process.namespec}')
                 self.fail_command(command.process, '', time.monotonic(), 'No resource available')
                 self.process_failure(process)
+        elif process.state in (ProcessStates.STARTING, ProcessStates.BACKOFF) and process.running_identifiers:
+            # NOTE: when the process is already STARTING (start sequence re-planned), no new request is needed
+            #       but the job still has to wait for the process to be started before the next sequence is triggered
+            command.update_identifier(next(iter(process.running_identifiers)))
+            command.update_sequence_counter()
+            queued = True
         # return True when the job is queued
         return queued
 
